@@ -3,6 +3,7 @@ a time and produces, after every operation, the same observation line the Lean d
 
 Only public API of the library is used.  What is read of CPython's asyncio (the loop's ready deque, the Task a
 handle is bound to) belongs to the interpreter, which is in the trusted base (DESIGN §2, §7)."""
+import collections.abc
 import asyncio
 import functools
 import inspect
@@ -21,6 +22,25 @@ from asyncio_taskpool import exceptions as X  # noqa: E402
 
 TASK_RE = re.compile(r"^(.*)_Task-(\d+)$")
 
+
+
+class _ROMap(collections.abc.Mapping):
+    """a read-only mapping that is not a dict (no `.copy()`, no `update()`): legal as `kwargs`"""
+
+    def __init__(self, d):
+        self._d = dict(d)
+
+    def __getitem__(self, k):
+        return self._d[k]
+
+    def __iter__(self):
+        return iter(self._d)
+
+    def __len__(self):
+        return len(self._d)
+
+    def __repr__(self):
+        return f"ROMap({self._d!r})"
 
 class Boom(Exception):
     pass
@@ -387,7 +407,7 @@ class ImplWorld:
                 a = (1, 2, 3) if bad == "1" else (7,)
                 a = {0: a, 1: list(a), 2: iter(a)}[len(self.pools) % 3]     # any iterable, also a one-shot iterator
                 if len(self.pools) % 2:     # every other SimpleTaskPool is constructed with positional arguments
-                    pool = SimpleTaskPool(f, a, {"k": 1}, ecb_f, ccb_f, ps, name)
+                    pool = SimpleTaskPool(f, a, _ROMap({"k": 1}), ecb_f, ccb_f, ps, name)
                 else:
                     pool = SimpleTaskPool(f, args=a, kwargs={"k": 1}, pool_size=ps, name=name,
                                           end_callback=ecb_f, cancel_callback=ccb_f)
@@ -443,10 +463,12 @@ class ImplWorld:
                 # `args` is any iterable: a tuple, a list, or (every third request) a one-shot iterator - each of the `num`
                 # invocations is to get the same arguments all the same
                 args = {0: args, 1: list(args), 2: iter(args)}[ctx.ncalls % 3]
+                # `kwargs` is any mapping: a dict, or (every other request) a read-only Mapping that is no dict
+                kw = {"k": 1} if ctx.ncalls % 4 < 2 else _ROMap({"k": 1})
                 if ctx.ncalls % 2:          # every other request passes everything by position, in signature order
-                    name = p.apply(f, args, {"k": 1}, int(num), None if g == "-" else g, ecb_f, ccb_f)
+                    name = p.apply(f, args, kw, int(num), None if g == "-" else g, ecb_f, ccb_f)
                 else:
-                    name = p.apply(f, args=args, kwargs={"k": 1}, num=int(num), group_name=None if g == "-" else g,
+                    name = p.apply(f, args=args, kwargs=kw, num=int(num), group_name=None if g == "-" else g,
                                    end_callback=ecb_f, cancel_callback=ccb_f)
                 holder["g"] = name
                 ctx.nreq += 1
